@@ -274,7 +274,7 @@ def check_property(pid, tier, seed, replay_only=None):
                 if d['level'] == 'error' and d['line'] and '__PROBE__' in ptxt[d['line'] - 1]:
                     hit.add(ptxt[d['line'] - 1].split('__PROBE__')[1].strip())
             for em in pr.unit.items:
-                if em.mode == 'verify' and not specs[em.name].noprobe:
+                if em.mode == 'verify' and em.name in specs and not specs[em.name].noprobe:
                     probe_total += 1
                     if em.name in hit:
                         probe_ok += 1
